@@ -19,7 +19,8 @@ variable {K : Type} [Field K] [LinearOrder K] [IsStrictOrderedRing K]
 theorem eqShape_refl (a : CmpShape K) (h : 0 < a.tol) : eqShape a a = true :=
   eqShape_refl' a h
 
-/-- A deep copy (same fields) equals its source, in both directions. -/
+/-- A deep copy (same fields) equals its source, in both directions.
+    (This is reflexivity of `eqShape` (the hypothesis is `b = a`); that `copy.deepcopy` yields equal fields is a harness check, not a theorem.) -/
 theorem deepcopy_eq (a b : CmpShape K) (h : 0 < a.tol) (hcopy : b = a) :
     eqShape a b = true ∧ eqShape b a = true := by
   subst hcopy; exact ⟨eqShape_refl' b h, eqShape_refl' b h⟩
@@ -29,7 +30,8 @@ theorem deepcopy_eq (a b : CmpShape K) (h : 0 < a.tol) (hcopy : b = a) :
 theorem eqShape_symm (a b : CmpShape K) (h : a.tol = b.tol) : eqShape a b = eqShape b a :=
   eqShape_symm' a b h
 
-/-- `a != b` is the negation of `a == b`. -/
+/-- `a != b` is the negation of `a == b`.
+    (Unfolding lemma (`rfl`): `__ne__` is defined as `not __eq__` in the model as in the code.) -/
 theorem neShape_eq_not (a b : CmpShape K) : neShape a b = !eqShape a b := rfl
 
 /-- Two shapes are equal **exactly if** they have the same parametric kind and rationality, equal
@@ -131,14 +133,17 @@ theorem perturb_degree_ne (a : CmpShape K) (ha : a.wf) (i d : ℕ) (hi : i < a.d
 repaired `==` tells them apart, the pinned one (tolerance 18, control-point verdict discarded)
 calls them equal.  (Witnesses: `Geomdl.EqWitness` in `Lemmas/Equality.lean`.) -/
 
-/-- pinned `==` ignores the control points. -/
+/-- pinned `==` ignores the control points.
+    (Closed witness check: a statement about this one concrete input, decided by evaluation.) -/
 theorem pinned_refutes_ctrlpts : eqShapePinned cA cB = true ∧ eqShape cA cB = false := by decide
 
-/-- pinned `==` compares knots with tolerance 18. -/
+/-- pinned `==` compares knots with tolerance 18.
+    (Closed witness check: a statement about this one concrete input, decided by evaluation.) -/
 theorem pinned_refutes_tolerance : eqShapePinned cA cC = true ∧ eqShape cA cC = false := by decide
 
 /-- the same two refutations over `ℚ` (quadratic curve `qA`, tolerance `10⁻¹⁸`): `qB` differs in one
-    control-point coordinate by 1/2, `qC` in the interior knot by `2·10⁻¹⁸`. -/
+    control-point coordinate by 1/2, `qC` in the interior knot by `2·10⁻¹⁸`.
+    (Closed witness check: a statement about this one concrete input, decided by evaluation.) -/
 theorem pinned_refutes_rat :
     eqShapePinned qA qB = true ∧ eqShape qA qB = false ∧
     eqShapePinned qA qC = true ∧ eqShape qA qC = false := by decide +kernel
